@@ -152,8 +152,82 @@ Section Serde.
     Definition unknown_entries (ps : list prop) (kvs : list (ustring * json)) : list (ustring * json) :=
       filter (fun kv => negb (mem_ustr (fst kv) (wire_names ps))) kvs.
 
-    (* struct body from an object: named members, then the (at most one)
-       flattened map member which receives every unknown entry *)
+    (* ---- several flattened members (typify's flattened-union structs:
+       `#[serde(flatten)] subtype_i: Option<S_i>` for an anyOf of non-exclusive
+       object branches).  serde buffers the entries the named members did not
+       take as a list of slots; each flattened member, IN DECLARATION ORDER, is
+       deserialised from the same slot list (FlatMapDeserializer):
+       * `Option<S>`, S a struct: S's derived visitor walks the remaining slots
+         IN TEXT ORDER and TAKES every slot whose key is one of S's fields (the
+         slot is consumed BEFORE its value is deserialised); at the first value
+         its field rejects S fails and the walk stops; S also fails on a missing
+         member without default.  A failed S makes the member None, BUT THE SLOTS
+         IT TOOK STAY TAKEN;
+       * a map takes nothing: it is read from all remaining slots, and a value it
+         rejects is an error of the whole struct.
+       Slots left over are ignored (serde forbids deny_unknown_fields next to
+       flatten).  Observed on compiled code (K5; notes/Covers.md). *)
+    Fixpoint find_wire_prop (w : ustring) (qs : list prop) : option prop :=
+      match qs with
+      | [] => None
+      | q :: r => match wire_name q with
+                  | Some w' => if ustr_eqb w w' then Some q else find_wire_prop w r
+                  | None => find_wire_prop w r
+                  end
+      end.
+
+    (* (taken slots, remaining slots, no value rejected) *)
+    Fixpoint flat_take (qs : list prop) (slots : list (ustring * json))
+      : list (ustring * json) * list (ustring * json) * bool :=
+      match slots with
+      | [] => ([], [], true)
+      | kv :: r =>
+          match find_wire_prop (fst kv) qs with
+          | None => match flat_take qs r with (tk, rs, ok) => (tk, kv :: rs, ok) end
+          | Some q =>
+              match de (p_ty q) (snd kv) with
+              | None => ([kv], r, false)
+              | Some _ => match flat_take qs r with (tk, rs, ok) => (kv :: tk, rs, ok) end
+              end
+          end
+      end.
+
+    Fixpoint de_flats (fps : list prop) (slots : list (ustring * json)) : option (list (ustring * rval)) :=
+      match fps with
+      | [] => Some []
+      | fp :: r =>
+          match get_det T (p_ty fp) with
+          | Some (DMap _ _) =>
+              match de (p_ty fp) (JObj slots) with
+              | Some m => option_map (cons (p_name fp, m)) (de_flats r slots)
+              | None => None
+              end
+          | Some (DOption t') =>
+              match get_det T t' with
+              | Some (DStruct _ _ qs _) =>
+                  match flat_props qs with
+                  | [] =>
+                      match flat_take qs slots with
+                      | (tk, rest, ok) =>
+                          let v := if ok then match de_named qs tk with
+                                              | Some fs => ROptSome (RStruct fs)
+                                              | None => ROptNone
+                                              end
+                                   else ROptNone in
+                          option_map (cons (p_name fp, v)) (de_flats r rest)
+                      end
+                  | _ => None          (* nested flattening: not modelled *)
+                  end
+              | _ => None
+              end
+          | _ => None
+          end
+      end.
+
+    (* struct body from an object: named members, then the flattened members.
+       The cases "nothing flattened" and "one flattened map" are spelled out (they
+       are what most proofs are about); [de_flats] agrees with them
+       (SerdeProofs.de_flats_one_map). *)
     Definition de_struct_obj (ps : list prop) (deny : bool) (kvs : list (ustring * json))
       : option (list (ustring * rval)) :=
       match de_named ps kvs with
@@ -169,9 +243,9 @@ Section Serde.
                   | Some m => Some (named ++ [(p_name fp, m)])
                   | None => None
                   end
-              | _ => None
+              | _ => if deny then None else option_map (app named) (de_flats [fp] unk)
               end
-          | _ => None
+          | fps => if deny then None else option_map (app named) (de_flats fps unk)
           end
       end.
 
@@ -419,6 +493,8 @@ Section Serde.
                   | RFlatten =>
                       match ser (p_ty p) x with
                       | Some (JObj m) => Some (m ++ rest)
+                      | Some JNull => Some rest     (* a flattened None (FlatMapSerializer::
+                                                       serialize_none) emits nothing *)
                       | _ => None
                       end
                   | _ =>
@@ -543,11 +619,18 @@ Section Serde.
                             | POptional => match default_val 8 (p_ty p) with Some _ => true | None => false end
                             | _ => true
                             end) ps &&
-          (match flat_props ps with
-           | [] => true
-           | [fp] => match get_det T (p_ty fp) with Some (DMap _ _) => true | _ => false end
-           | _ => false
-           end) in
+          (* flattened members: maps, or Option of a struct without flattened members
+             of its own (the flattened-union structs; de_flats) *)
+          forallb (fun fp => match get_det T (p_ty fp) with
+                             | Some (DMap _ _) => true
+                             | Some (DOption t') =>
+                                 match get_det T t' with
+                                 | Some (DStruct _ _ qs _) =>
+                                     match flat_props qs with [] => true | _ => false end
+                                 | _ => false
+                                 end
+                             | _ => false
+                             end) (flat_props ps) in
         match get_det T i with
         | None => false
         | Some d =>
